@@ -468,11 +468,64 @@ def job_iap(Ks, KL, NS, tier, part=0, nparts=1):
                                        "replay": {"property": PID, "key": "integrate_absolute_polynomial", "tu_name": h.name, "tu_text": h.text, "fn": "iap", "inputs": inp, "nout": 1,
                                                   "native": [got], "rhs": str(want), "lhs": str(got), "err": abs(got - want), "tol": 1e-9, "obligation": "iap"}})
             else:
-                res.add_raw(pk, "undecided", "z3 model not reproduced natively (got %r, want %r at %r)" % (got, want, inp), dt)
+                w = iap_search(h, mp, asm + p.pc)
+                if w is None:
+                    res.add_raw(pk, "undecided", "z3 model not reproduced natively (got %r, want %r at %r); no witness among the root-configuration strata" % (got, want, inp), dt)
+                else:
+                    iap_violation(res, h, pk, w, dt)
         else:
-            res.add_raw(pk, "undecided", "z3 %s" % rs, dt)
+            # NRA query undecided: search the path for a witness over stratified root configurations (replayed natively against the 50-digit reference)
+            w = iap_search(h, mp, asm + p.pc)
+            if w is None:
+                res.add_raw(pk, "undecided", "z3 %s; no witness among the root-configuration strata on this path" % rs, dt)
+            else:
+                iap_violation(res, h, pk, w, dt)
     res.bounds.add("integrate_absolute_polynomial: [t0,t1] within [0,1], |A|,|B|,|C| <= 1e3")
     return res
+
+
+def iap_strata():
+    """inputs stratified by where the real roots lie relative to [t0,t1] (left/left, left/inside, inside/inside, inside/right, right/right,
+    straddling, double root, none), plus linear and constant polynomials; all inside the check's box"""
+    out = []
+    r = random.Random(5)
+    ivs = [(0.5, 1.0), (0.25, 0.5), (0.0, 1.0), (0.4, 0.6), (0.0, 0.3)]
+    for t0, t1 in ivs:
+        w = t1 - t0
+        cands = [(t0 - 0.4, t0 - 0.1), (t0 - 0.2, t0 + w / 3), (t0 + w / 4, t0 + w / 2), (t0 + w / 2, t1 + 0.2), (t1 + 0.1, t1 + 0.5), (t0 - 0.3, t1 + 0.3),
+                 (t0 + w / 2, t0 + w / 2), (t0, t1), (t0 - 0.1, t0)]
+        for r1, r2 in cands:
+            for a in (1.0, -3.0, 250.0):
+                out.append([t0, t1, a, -a * (r1 + r2), a * r1 * r2])
+        for a in (2.0, -0.5):
+            out.append([t0, t1, a, 0.3 * a, a * (0.0225 + 0.7)])     # no real roots
+        for b, c in ((1.0, -(t0 + w / 2)), (-2.0, 2.0 * (t0 - 0.3)), (0.0, 1.5), (0.0, 0.0)):
+            out.append([t0, t1, 0.0, b, c])
+    for _ in range(60):
+        a, b = sorted([r.uniform(0, 1), r.uniform(0, 1)])
+        out.append([a, b, r.uniform(-5, 5), r.uniform(-5, 5), r.uniform(-5, 5)])
+    return out
+
+
+def iap_search(h, mp, pc):
+    for inp in iap_strata():
+        env = dict(zip(("t0", "t1", "A", "B", "C"), inp))
+        if not check.pc_holds(pc, env):
+            continue
+        got = h.native("iap", inp, 1)[0]
+        want = float(ref_integral(mp, *inp))
+        if not (abs(got - want) <= 1e-9 * max(1.0, abs(want))):
+            return inp, got, want
+    return None
+
+
+def iap_violation(res, h, pk, w, dt):
+    inp, got, want = w
+    res.add_raw(pk, "violated", "witness on this path reproduced natively: got %r want %r at %r" % (got, want, inp), dt)
+    if not any(v["key"] == "integrate_absolute_polynomial" for v in res.violations):
+        res.violations.append({"key": "integrate_absolute_polynomial", "what": "integrate_absolute_polynomial%r = %r, exact %r" % (tuple(inp), got, want),
+                               "replay": {"property": PID, "key": "integrate_absolute_polynomial", "tu_name": h.name, "tu_text": h.text, "fn": "iap", "inputs": inp, "nout": 1,
+                                          "native": [got], "rhs": str(want), "lhs": str(got), "err": abs(got - want), "tol": 1e-9, "obligation": "iap"}})
 
 
 def ref_integral(mp, t0, t1, A, B, C):
